@@ -197,7 +197,11 @@ H("C09", "c09_client_insert", "cache::sync", CLI, CB2 + "; asserts vetoed / abse
 IDX["C18"]["assumptions"] += [CHAN, ADDC, MREC, PARK, ARCD]
 for op in ("lookup", "insert", "remove"):
     H("C18", "c18_cache_isolation_" + op, "cache::sync", ["Cache::get", "Cache::get_mut", "Cache::get_ttl", "Cache::try_update", "Cache::try_remove", "CacheProcessor::handle_item", "KeyBuilder::build_key"],
-      "a key builder that forces two keys onto one index hash with different non-zero conflict hashes; first key resident with arbitrary TTL; " + op + " of the second key, processed to quiescence", timeout=1800, mem_gb=20, cover_tags=[op])
+      "a key builder that forces two keys onto one index hash with different non-zero conflict hashes; first key resident (created <= 4 s ago, TTL <= 4 s or none: possibly expired but unswept); " + op + " of the second key, processed to quiescence", timeout=1800, mem_gb=20, cover_tags=[op])
+ISOF = ["Cache::try_remove", "CacheProcessor::handle_item(Delete)", "ShardedMap::try_remove", "ShardedMap::expiration", "LFUPolicy::remove", "KeyBuilder::build_key"]
+ISOB = "a key builder that forces two keys onto one index hash with different non-zero conflict hashes; first key resident (created <= 4 s ago, TTL <= 4 s or none: possibly expired but unswept) and charged; remove of the second, absent key, its Delete processed"
+H("C06", "c06_colliding_remove", "cache::sync", ISOF, ISOB + ": the resident key stays resident AND charged", timeout=1800, mem_gb=20, cover_tags=["remove"], alias_of="c18_cache_isolation_remove")
+H("C08", "c08_colliding_remove", "cache::sync", ISOF, ISOB + ": no callback fires for the resident value", timeout=1800, mem_gb=20, cover_tags=["remove"], alias_of="c18_cache_isolation_remove")
 # ---- C20
 P("C20", CACHE_ASS + [RNG, "std::thread::spawn is stubbed by panic!() in c20_finalize_rejects_zero (the three validation errors return before any thread is spawned; what finalize does after validation is outside)"])
 for tag in ("n0", "mc0", "bs0"):
